@@ -27,6 +27,9 @@ PROPS = {
              "rule": "random histories of outgoing transfers / session flows (truthful, unset or bogus next-incoming-id; "
                      "windows 0..5000 and 2^32-1) / incoming transfers, initial ids over-weighted within 200 of 0, 2^31 and 2^32; "
                      "corpus of former witnesses first; thorough adds all histories of length <= 4 over a 9-letter alphabet"},
+            {"name": "frame", "n_quick": 400, "n_thorough": 20000, "model": "coq/Frame/SessionSplit.v",
+             "rule": "ssplit cases: random transfer performatives and payload lengths around the multiples of the frame body size for max-frame-size "
+                     "512..65536: the real split_transfer against the model's piece sizes, and every piece through the real frame encoder (must be one frame)"},
         ],
         "rule": "a case is one event history run through the real Session (facade) and the extracted Coq model; "
                 "non-trivial = at least one transfer emitted and (a transfer was buffered or a drain batch occurred); distinct by case text",
@@ -316,5 +319,53 @@ PROPS = {
         "assumptions": ["the client's bytes arrive as whole frames in the model-compared cases (fragmented and malformed input is exercised by the sasl sub and C15)"],
         "partial": ["the SCRAM CLIENT clauses (server must prove knowledge of the password; non-OK outcome is never success) are decided on the implementation by the direct "
                     "oracle against the scripted server only - no Coq model of the client"],
+    },
+    "C01": {
+        "class_prefixes": ["c01-", "c06-frame-too-large", "c06-garbage", "c06-advertised-mfs", "harness-crash"],
+        "subs": [
+            {"name": "e2e", "n_quick": 150, "n_thorough": 3000, "oracle": False,
+             "rule": "a real client and a real in-process listener (both directions) over an in-memory pipe with a relay that re-chunks the byte stream (1..4096 bytes, "
+                     "splitting frame headers); configuration drawn per case: max-frame-size 512..64Ki on each side, session windows 1..5000, credit Auto(n)/Manual, "
+                     "sender settle mode settled/unsettled/mixed, receiver settle mode first/second, auto-accept / direct accept / a disposer task, channel buffer sizes "
+                     "1..65535, 1..40 messages of 12 body kinds with every combination of optional sections, sizes 0..3 max-frame-sizes; paused-clock runtime "
+                     "(deterministic) plus a tenth of the cases on a 4-worker runtime"},
+            {"name": "frame", "n_quick": 300, "n_thorough": 20000, "model": "coq/Frame/SessionSplit.v",
+             "rule": "ssplit cases (see C07): the sending session's cut against the model and the encoder"},
+            {"name": "rx", "n_quick": 600, "n_thorough": 30000, "model": "coq/Link/Receiver.v",
+             "rule": "receiving link scripts (see C10): reassembly against the model"},
+        ],
+        "rule": "e2e: direct oracle on the end-to-end run: every message sent is received exactly once, in order, byte for byte (re-encoded), every unsettled send gets "
+                "the outcome the receiver applied, nothing hangs, no frame exceeds the advertised max-frame-size; non-trivial = at least two deliveries with a message "
+                "larger than a frame. frame and rx tie the two models composed in the theorem to the code",
+        "trusted": ["the theorem composes two models each tied to the code separately (split_transfer + frame encoder; Receiver); the composition through the real "
+                    "session/connection engines is exercised by the e2e sub only"],
+        "assumptions": ["the connection stays up"],
+        "partial": ["exactly-once and order across several deliveries follow from C07/C11 (consecutive transfer-ids, one tag per delivery) and C10 (one message per final frame); "
+                    "they are not restated as one theorem over the composed system",
+                    "known findings: deadlock with channel buffers of 1-2 (c01-hang-small-buffers)"],
+    },
+    "C15": {
+        "class_prefixes": ["c15-", "harness-crash"],
+        "subs": [
+            {"name": "hostile", "n_quick": 300, "n_thorough": 3000, "oracle": False,
+             "rule": "client and listener brought by a valid prelude into one of 13 states (header only .. open, begun, sender / receiver attached with credit, mid multi-frame "
+                     "delivery, delivery unsettled, detach / end / close sent), then one stimulus from a catalogue of 180 (frame sizes 0..0xffffffff, doff and type bytes, "
+                     "random / truncated / over-long bodies, unknown descriptors, list counts 0xffffffff, nesting depth up to 100000, forged lengths, and every protocol "
+                     "violation named by the property), then a well-behaved / silent / EOF follow-up; thorough adds 3000 mutated frames; each case in a child process "
+                     "with a 2 MiB stack and a real-time limit"},
+            {"name": "sasl", "n_quick": 100, "n_thorough": 2000, "oracle": False,
+             "rule": "the SCRAM client against a scripted server naming extreme iteration counts (class c15-scram-iterations); see C19"},
+            {"name": "codec", "n_quick": 300, "n_thorough": 20000, "model": "coq/Codec/Dec.v",
+             "rule": "decoder totality on arbitrary bytes (see C04): the theorem side of 'never panics' for frame bodies"},
+        ],
+        "rule": "hostile: direct oracle per case: no panic (hook records message and location), no stack overflow, every pending application call completes within 120 s of "
+                "virtual time after EOF, work in proportion to the frame (real time < 2 s, response < 1000 frames / 1 MiB, peak allocation < 64 MiB), an error is visible to "
+                "the application whenever the endpoint shut something down, valid traffic still works when it ignored the frame, a second connection is unaffected; "
+                "non-trivial = the stimulus was delivered in the intended state",
+        "trusted": ["no Coq model of the engines under hostile input beyond the decoder (C04 theorems: total, no panic, consumes a prefix, on the decoder model) and the "
+                    "lifecycle models of C12/C13/C19 whose step functions are total; the catalogue x states exploration is the deciding evidence"],
+        "assumptions": ["real-time limits are machine dependent (2 s per stimulus)"],
+        "partial": ["'never does work out of proportion' and 'never blocks forever' are decided by measurement on the catalogue, not by a theorem",
+                    "known findings: unbounded decoder recursion, send() pending for ever after a stop, uncapped SCRAM iteration count"],
     },
 }
